@@ -131,6 +131,7 @@ type World struct {
 	valSeq      int
 	lastDump    *ecs.EntityDump
 	pendingPrev map[int64]bool
+	lateTypes   int
 }
 
 type recListener struct {
